@@ -135,7 +135,7 @@ pub fn eval(c: &MCase) -> Eval {
         "validators": if c.wrong_prefix_arg && c.fill % 3 == 2 { json!([addr20(vp, "v0"), addr20("cosmosvaloper", "foreign"), addr20(vp, "v2")]) } else { json!([addr20(vp, "v0"), addr20(vp, "v1"), addr20(vp, "v2")]) },
         "batch_period": rng.range(1, 1_000_000),
         "unbonding_period": rng.range(1, 10_000_000),
-        "protocol_fee_config": {"dao_treasury_fee": rng.below(100_001).to_string()},
+        "protocol_fee_config": {"dao_treasury_fee": if rng.chance(1, 5) { "0".to_string() } else { rng.below(100_001).to_string() }},
         "multisig_address_config": {"staker_address": staker, "reward_collector_address": collector},
         "minimum_liquid_stake_amount": rng.below(1_000_000).to_string(),
         "ibc_channel_id": format!("channel-{}", rng.below(500)),
@@ -202,8 +202,14 @@ pub fn eval(c: &MCase) -> Eval {
         if r2.ok {
             ev.stats.probe("migration_retried_after_abort");
         }
+        if r2.ok && gate_ok && layout_ok && c.msg_path % 3 == 2 {
+            queue_lists_all(c, &mut w, &mut viol);
+        }
     } else {
         check_result(c, &r, &before, &w, gate_ok, layout_ok, args_ok, name, ver, &msg, &mut viol, &mut ev, send_fees, &ibc, &staker, np, pp);
+        if r.ok && gate_ok && layout_ok && c.msg_path % 3 == 2 {
+            queue_lists_all(c, &mut w, &mut viol);
+        }
     }
     for p in &w.panics {
         viol.push(Violation { stop: true, prop: "C16", clause: "panic", step: 1, msg: format!("{}::{} panicked: {} | input: {}", p.contract, p.entry, p.msg, p.input) });
@@ -227,6 +233,36 @@ pub fn eval(c: &MCase) -> Eval {
     ev.stats.ops = 1;
     ev.faulted = c.abort_at.is_some();
     ev
+}
+
+/// C17 across an upgrade: paging through IbcQueue lists every stored transfer exactly once, in ascending order.
+fn queue_lists_all(c: &MCase, w2: &mut World, viol: &mut Vec<Violation>) {
+    let mut want: Vec<u64> = c.packets.iter().map(|p| p.0).collect();
+    want.sort();
+    want.dedup();
+    for limit in [1u32, 3, 50] {
+        let mut got: Vec<u64> = vec![];
+        let mut cursor: Option<u64> = None;
+        for _ in 0..(want.len() + 2) {
+            let q = json!({"ibc_queue": {"start_after": cursor, "limit": limit}});
+            let page: Vec<u64> = match w2.query(Which::Staking, &q.to_string()).ok().and_then(|b| serde_json::from_slice::<Value>(&b).ok()) {
+                Some(v) => v["ibc_queue"].as_array().map(|a| a.iter().map(|p| p["sequence"].as_u64().unwrap_or(u64::MAX)).collect()).unwrap_or_default(),
+                None => {
+                    viol.push(Violation { stop: true, prop: "C17", clause: "queue_after_upgrade", step: 1, msg: "IbcQueue query failed after the migration".into() });
+                    return;
+                }
+            };
+            if page.is_empty() {
+                break;
+            }
+            cursor = page.last().cloned();
+            got.extend(page);
+        }
+        if got != want {
+            viol.push(Violation { stop: true, prop: "C17", clause: "queue_after_upgrade", step: 1, msg: format!("after the migration, paging IbcQueue with limit {} lists {:?} but the stored transfers are {:?}", limit, got, want) });
+            return;
+        }
+    }
 }
 
 #[allow(clippy::too_many_arguments)]
@@ -312,6 +348,15 @@ fn check_result(c: &MCase, r: &TxResult, before: &BTreeMap<Vec<u8>, Vec<u8>>, w:
                     // two of these fields carry other properties' guarantees through the upgrade
                     if f == "stopped" {
                         viol.push(Violation { stop: true, prop: "C10", clause: "upgrade_keeps_halted_flag", step: 1, msg: format!("the halted flag changed from {} to {} through a migration: only the admin's ResumeContract may lift a halt", o, n) });
+                    }
+                    if f == "staker_address" || f == "reward_collector_address" {
+                        // the accounts authenticated for ReceiveUnstakedTokens / ReceiveRewards are derived from these two
+                        let m = format!("after the migration the {} is {} instead of {}: the ibc-hooks account of another native address is accepted in its place and the genuine one is refused", f, n, o);
+                        viol.push(Violation { stop: true, prop: "C09", clause: "upgrade_keeps_hook_senders", step: 1, msg: m.clone() });
+                        viol.push(Violation { stop: true, prop: "C08", clause: "upgrade_keeps_authorised_senders", step: 1, msg: m });
+                    }
+                    if f == "unbonding_period" || f == "batch_period" {
+                        viol.push(Violation { stop: true, prop: "C06", clause: "upgrade_keeps_periods", step: 1, msg: format!("after the migration {} is {} instead of {}: batches become due / receivable at other times than one period after submission", f, n, o) });
                     }
                     if f == "protocol prefix" {
                         viol.push(Violation { stop: true, prop: "C09", clause: "upgrade_keeps_hook_prefix", step: 1, msg: format!("after the migration the ibc-hooks accounts are derived under prefix {} instead of the supplied {}", n, o) });
